@@ -153,7 +153,17 @@ pub fn run_case(case: &Case) -> (Vec<Violation>, Guards) {
         // toi -> (spec index, transfer_length)
         let mut accepted: Vec<(u128, usize, u64)> = Vec::new();
         for (i, o) in case.objs.iter().enumerate() {
-            let desc = o.desc(tmp.as_deref()).map_err(|e| ("C01/harness-desc".to_string(), e))?;
+            let desc = match o.desc(tmp.as_deref()) {
+                Ok(d) => d,
+                // a content encoding on a source that is read at send time (stream, file not cached in RAM) cannot
+                // be honoured: refusing it when the object is created is the legitimate outcome (accepting it and
+                // sending the bytes uncompressed under the announced encoding was a defect, fixed 557e5f9)
+                Err(_) if o.source != Source::Buffer && o.cenc != 0 => {
+                    g.refusal += 1;
+                    continue;
+                }
+                Err(e) => return Err(("C01/harness-desc".to_string(), e)),
+            };
             let tl = desc.transfer_length;
             let oti = o.oti.as_ref().unwrap_or(&case.sess.oti);
             let maxl = max_transfer_length(oti);
@@ -595,9 +605,9 @@ fn session_grid(thorough: bool) -> Vec<Case> {
                                                         1 => Some(Cache::MaxStale),
                                                         _ => Some(Cache::ExpiresMs(90_000)),
                                                     };
-                                                    if *source != Source::Buffer {
-                                                        o.cenc = 0;
-                                                    }
+                                                    // stream / file sources with a content encoding: refused at creation, or delivered
+                                                    o.cenc = if *source != Source::Buffer && j != 1 { 0 } else { [0u8, 3, 1, 2][(j + si) % 4] };
+                                                    o.text = o.cenc != 0;
                                                     objs.push(o);
                                                 }
                                                 let rx_variant = (v.len() % 3) as u8;
